@@ -114,7 +114,13 @@ func runC04(c *Ctx) {
 	for i := 0; i < n; i++ {
 		htmlWriterCases(c, []byte(c.R.PickS([]string{"", " ", "&#32;", "\\ "})+c04Spell(c.R, c.R.PickS(c04Schemes))))
 	}
-	safeModeSweep(c, c04Targeted(c.R, n), func(cf Cfg, it docItem, out []byte, report func(kind, detail string)) {
+	tg := c04Targeted(c.R, n)
+	var pit []docItem
+	for _, t := range tg {
+		pit = append(pit, docItem{"targeted", []byte(t)})
+	}
+	parserModelCases(c, pit, n)
+	safeModeSweep(c, tg, func(cf Cfg, it docItem, out []byte, report func(kind, detail string)) {
 		toks, _ := scanHTML(out)
 		for _, t := range toks {
 			if t.kind != 's' {
